@@ -64,6 +64,8 @@ impl CgCtx {
             })
             .collect();
 
+        let search_tables = SearchTableSet::new(lexer_name.to_string());
+
         CgCtx {
             semantic_action_table,
             lexer_name,
@@ -71,9 +73,7 @@ impl CgCtx {
             user_error_type,
             rule_states,
             inlined_states,
-            codegen_state: CgState {
-                search_tables: SearchTableSet::new(),
-            },
+            codegen_state: CgState { search_tables },
         }
     }
 
@@ -105,7 +105,10 @@ impl CgCtx {
     }
 
     pub fn take_search_tables(&mut self) -> SearchTableSet {
-        std::mem::replace(&mut self.codegen_state.search_tables, SearchTableSet::new())
+        std::mem::replace(
+            &mut self.codegen_state.search_tables,
+            SearchTableSet::new(self.lexer_name.to_string()),
+        )
     }
 
     pub fn rule_states(&self) -> &Map<String, StateIdx> {
@@ -114,6 +117,15 @@ impl CgCtx {
 
     pub fn iter_semantic_actions(&self) -> impl Iterator<Item = (SemanticActionIdx, &RuleRhs)> {
         self.semantic_action_table.iter()
+    }
+
+    /// Name of the generated binary search function. Prefixed with the lexer name like other
+    /// generated items, to avoid name clashes when multiple lexers are defined in the same module.
+    pub fn binary_search_fn_ident(&self) -> syn::Ident {
+        syn::Ident::new(
+            &format!("{}_BINARY_SEARCH", self.lexer_name),
+            self.lexer_name.span(),
+        )
     }
 
     pub fn semantic_action_fn_ident(&self, action: SemanticActionIdx) -> syn::Ident {
